@@ -350,6 +350,7 @@ func (w *World) absData(m M, h *ref.Header, d *ref.Data, from, to string) {
 	m["rs"] = false
 	m["tlvs"] = []int{}
 	m["smp"] = M{"k": 0, "sec": []interface{}{}, "ok": "ok", "run": 0}
+	m["pad"] = "unknown"
 	m["trail"] = len(d.Trailing)
 	var keys *ref.SessionKeys
 	w.Reg.candidatePairs(from, to, func(a, b *Secret) bool {
@@ -376,6 +377,17 @@ func (w *World) absData(m M, h *ref.Header, d *ref.Data, from, to string) {
 			tl = append(tl, -1)
 		}
 		m["tlvs"] = tl
+		// the OTR padding rule: one padding TLV (type 0) at the end, of length
+		// 256 - ((len(text) + 5) mod 256), all zero bytes
+		pad := "absent"
+		if n := len(tlvs); n > 0 && tlvs[n-1].Type == 0 {
+			want := 256 - ((len(text) + 5) % 256)
+			pad = "bad"
+			if len(tlvs[n-1].Value) == want && len(bytes.Trim(tlvs[n-1].Value, "\x00")) == 0 {
+				pad = "ok"
+			}
+		}
+		m["pad"] = pad
 		// SMP payload: type of the (last non-abort) SMP TLV, the sender's bound secret term
 		k := 0
 		for _, t := range tlvs {
